@@ -126,6 +126,7 @@ class Engine:
         self.libuse = set()
         self.facts = []
         self._fact_ids = set()
+        self.undef = []
         from . import lib
         self.lib = lib
 
@@ -247,9 +248,29 @@ class Engine:
             env[n] = self.fresh(ty, n, st, inp=True)
         for p in lem.premises:
             st.pc.append(self.spec_bool(p, st, env))
-        hints = [self.spec_bool(h, st, env) for h in lem.hints]
-        g = self.spec_bool(lem.goal, st, env)
-        self.oblige(st, 'lemma', lem.name, g, props=lem.props, note=lem.note, hints=hints)
+        tree = ast.parse(lem.goal.strip(), mode='eval').body
+        parts = tree.values if isinstance(tree, ast.BoolOp) and isinstance(tree.op, ast.And) \
+            else [tree]
+        cases = lem.cases or ['True']
+        if lem.cases:
+            # the case split must be exhaustive
+            cs = [self.spec_bool(c, st, env, goal=True) for c in lem.cases]
+            self.oblige(st, 'lemma', lem.name + '.cases-exhaustive', z3.Or(*cs),
+                        props=lem.props)
+        for ci, case in enumerate(cases):
+            s2 = self.assume(st, self.spec_bool(case, st, env))
+            if s2 is None:
+                continue
+            env2 = dict(env)
+            for n, src in lem.lets.items():
+                env2[n] = self.spec(src, s2, env2)
+            hints = [self.spec_bool(h, s2, env2) for h in lem.hints]
+            for i, part in enumerate(parts):
+                g = self.spec_bool(part, s2, env2, goal=True)
+                lab = lem.name + ('.case%d' % ci if lem.cases else '') + \
+                    ('.%d' % i if len(parts) > 1 else '')
+                self.oblige(s2, 'lemma', lab, g, props=lem.props, note=ast.unparse(part),
+                            hints=hints)
         return self.obls[n0:]
 
     # -----------------------------------------------------------------------------------------
@@ -404,9 +425,12 @@ class Engine:
         base = len(s2.pc)
         alts = []
         for s3, v in self.ev(tree, s2):
+            cond = z3.And(*s3.pc[base:]) if len(s3.pc) > base else z3.BoolVal(True)
             if isinstance(v, Raise):
+                # the expression is undefined here (a partial operation failed)
+                self.undef.append(cond)
                 continue
-            alts.append((z3.And(*s3.pc[base:]) if len(s3.pc) > base else z3.BoolVal(True), v))
+            alts.append((cond, v))
         if not alts:
             raise EngineError('spec expression undefined on every path: %s'
                               % (src if isinstance(src, str) else ast.unparse(src)))
@@ -415,9 +439,23 @@ class Engine:
             out = same_sort_merge(c, v, out)
         return out
 
-    def spec_bool(self, src, st, env=None, result=None, pre=None):
-        v = self.spec(src, st, env, result, pre)
-        return truth(v)
+    def spec_bool(self, src, st, env=None, result=None, pre=None, goal=False, neg=False):
+        """Boolean spec expression. Definedness: in goal position the expression must be
+        defined; in assumption position an undefined expression contributes nothing."""
+        saved = self.undef
+        self.undef = []
+        try:
+            v = self.spec(src, st, env, result, pre)
+            und = self.undef
+        finally:
+            self.undef = saved
+        t = truth(v)
+        if neg:
+            t = z3.Not(t)
+        if not und:
+            return t
+        d = z3.Not(z3.Or(*und))
+        return z3.And(d, t) if goal else z3.Implies(d, t)
 
     # -----------------------------------------------------------------------------------------
     # expressions
@@ -624,6 +662,13 @@ class Engine:
                 continue
             for s2, side in self.fork(s1, truth(v)):
                 if isinstance(op, ast.And) == side:
+                    saved = s2.env
+                    self.refine(s2, values[0], side)
+                    if s2.env is not saved:
+                        for s3, r in self._boolop(op, values[1:], s2):
+                            s3.env = saved
+                            yield s3, r
+                        continue
                     yield from self._boolop(op, values[1:], s2)
                 else:
                     yield s2, v
@@ -996,7 +1041,7 @@ class Engine:
                     else:
                         raise
         for cl in c.requires_:
-            g = self.spec_bool(cl.src, st, penv)
+            g = self.spec_bool(cl.src, st, penv, goal=True)
             self.oblige(st, 'pre@callsite', '%s:%s' % (full, cl.label), g,
                         props=c.props, line=line)
         pre = st.copy()
@@ -1226,6 +1271,27 @@ class Engine:
                 else:
                     yield from self.assign(t.value, newo, s2, s.lineno)
 
+    def refine(self, st, test, side):
+        """Flow typing: after `isinstance(x, T)` / `x is None` on a local of unknown type."""
+        if isinstance(test, ast.UnaryOp) and isinstance(test.op, ast.Not):
+            return self.refine(st, test.operand, not side)
+        if isinstance(test, ast.Call) and isinstance(test.func, ast.Name) and \
+                test.func.id == 'isinstance' and len(test.args) == 2 and side and \
+                isinstance(test.args[0], ast.Name) and isinstance(test.args[1], ast.Name):
+            ty = {'str': STR, 'bytes': BYTES, 'bytearray': BYTEARRAY, 'float': REAL}.get(
+                test.args[1].id)
+            v = self.lookup(st, test.args[0].id, None)
+            if ty is not None and v is not None and v.ty.kind == 'any' and \
+                    test.args[0].id in st.env:
+                self.setlocal(st, test.args[0].id, unbox(v.t, ty))
+        if isinstance(test, ast.Compare) and len(test.ops) == 1 and \
+                isinstance(test.left, ast.Name) and isinstance(test.comparators[0], ast.Constant) \
+                and test.comparators[0].value is None and test.left.id in st.env:
+            v = st.env[test.left.id]
+            if v.ty.kind == 'any' and (isinstance(test.ops[0], ast.Is) and side or
+                                       isinstance(test.ops[0], ast.IsNot) and not side):
+                self.setlocal(st, test.left.id, VNONE)
+
     def ex_If(self, s, st):
         for s1, c in self.ev(s.test, st):
             if isinstance(c, Raise):
@@ -1233,6 +1299,7 @@ class Engine:
                 continue
             for s2, side in self.fork(s1, truth(c)):
                 s2.trace = s2.trace + (('%d%s' % (s.lineno, 'T' if side else 'F')),)
+                self.refine(s2, s.test, side)
                 yield from self.ex_block(s.body if side else s.orelse, s2)
 
     def ex_Raise(self, s, st):
@@ -1383,7 +1450,7 @@ class Engine:
         if idx is not None:
             env0[spec.index or '_i'] = vint(0)
         for cl in spec.invariants:
-            g = self.spec_bool(cl.src, st, env0)
+            g = self.spec_bool(cl.src, st, env0, goal=True)
             self.oblige(st, 'inv-init', 'loop%d:%s' % (ordn, cl.label), g, props=cl.props,
                         line=s.lineno)
         head = st.copy()
@@ -1428,7 +1495,7 @@ class Engine:
             if idx_next is not None:
                 env[spec.index or '_i'] = idx_next
             for cl in spec.invariants:
-                g = self.spec_bool(cl.src, s3, env)
+                g = self.spec_bool(cl.src, s3, env, goal=True)
                 self.oblige(s3, 'inv-keep', 'loop%d:%s' % (ordn, cl.label), g, props=cl.props,
                             line=s.lineno)
             return
@@ -1623,8 +1690,8 @@ class Engine:
         line = node.lineno
         for rc in c.raises_:
             if rc.exact:
-                w = self.spec_bool(rc.when, pre, penv)
-                self.oblige(st, 'no-raise', rc.label, z3.Not(w), props=rc.props, line=line,
+                w = self.spec_bool(rc.when, pre, penv, goal=True, neg=True)
+                self.oblige(st, 'no-raise', rc.label, w, props=rc.props, line=line,
                             note='normal return although the contract says %s is raised'
                                  % rc.exc)
         if c.ret is not None and c.ret.kind not in ('rec',) and res.ty != c.ret:
@@ -1635,7 +1702,7 @@ class Engine:
                     res = V(ANY, PV.pnone)
         for cl in c.ensures_:
             hints = [self.spec_bool(h, st, penv, result=res, pre=pre) for h in cl.hints]
-            g = self.spec_bool(cl.src, st, penv, result=res, pre=pre)
+            g = self.spec_bool(cl.src, st, penv, result=res, pre=pre, goal=True)
             self.oblige(st, 'post', cl.label, g, props=cl.props, line=line, hints=hints)
         self.frame_obligations(st, c, penv, pre, line)
 
@@ -1646,12 +1713,12 @@ class Engine:
                         line=r.line, note='%s escapes; the contract has no raises clause for it'
                         % r.cls)
             return
-        ws = [self.spec_bool(rc.when, pre, penv) for rc in matched]
+        ws = [self.spec_bool(rc.when, pre, penv, goal=True) for rc in matched]
         self.oblige(st, 'raises', r.cls, z3.Or(*ws), props=matched[0].props, line=r.line,
                     note='%s raised outside the condition stated by the contract' % r.cls)
         for rc, w in zip(matched, ws):
             for cl in rc.ensures:
-                g = z3.Implies(w, self.spec_bool(cl.src, st, penv, pre=pre))
+                g = z3.Implies(w, self.spec_bool(cl.src, st, penv, pre=pre, goal=True))
                 self.oblige(st, 'raises-post', '%s:%s' % (rc.label, cl.label), g,
                             props=cl.props, line=r.line)
         self.frame_obligations(st, c, penv, pre, r.line)
